@@ -340,10 +340,16 @@ func (g *gen) enumerate() []Case {
 				continue
 			}
 			okInit := map[string]string{"string": "s", "int": "a", "int64": "a", "uint": "a", "float64": "f", "bool": "t", "any": "s"}[f.params[0]]
+			if pp, ok := ptrPaths[f.params[0]]; ok {
+				okInit = pp[0]
+			}
 			np := len(f.params)
 			one := func(pt string) Arg {
 				if pt == "bool" {
 					return Arg{K: "bool", V: "false"}
+				}
+				if pp, ok := ptrPaths[pt]; ok {
+					return Arg{K: "path", V: pp[0]}
 				}
 				return srcs[pt][0]
 			}
